@@ -181,10 +181,20 @@ def check(ctx):
     ctx.ob("R18.4", "only the points setter writes _points", ok, detail=writers, where=P.fq, construct="writers of _points",
            message=f"_points is written by {sorted(writers)}", consequence="vertices bypass orientation/closure normalisation")
     fs = P.methods["points"]
-    steps = [norm(n.value) for n in fs.node.body if isinstance(n, ast.Assign) and norm(n.targets[0]) == "points"]
-    want = ["geo.polygon.Polygon(points)", "geo.polygon.orient(points)", "close_curve(np.array(points.exterior.coords))"]
-    idx = [steps.index(w) if w in steps else -1 for w in want]
-    ok = all(i >= 0 for i in idx) and idx == sorted(idx) and norm(fs.node.body[-1]) == "self._points = points"
+    # what is stored, read backwards along the reaching definitions (temporaries and rebinding of one name both disappear):
+    # close_curve( ... orient( ... Polygon(<input>) ... ) ... ) in that nesting order
+    from ..dataflow import expand_at
+    stores = [n for n in own_nodes(fs.node) if isinstance(n, ast.Assign) and any(norm(t) == "self._points" for t in n.targets)]
+    steps = []
+    ok = len(stores) == 1
+    if ok:
+        ex = expand_at(fs.node, stores[0].value, stores[0])
+        steps = [norm(ex)[:200]]
+
+        def inner(node, name):
+            return [c for c in ast.walk(node) if isinstance(c, ast.Call) and norm(c.func).split(".")[-1] == name and c is not node]
+        cc = [ex] if isinstance(ex, ast.Call) and norm(ex.func).split(".")[-1] == "close_curve" else []
+        ok = bool(cc) and any(any(inner(o, "Polygon") for o in inner(c, "orient")) for c in cc)
     ctx.ob("R18.4", "setter chain: shapely Polygon -> orient (counter-clockwise) -> ... -> close_curve -> store", ok, detail=steps,
            where=fs.fq, construct="points setter chain", loc=loc(fs, fs.node), message=f"setter steps: {steps}",
            consequence="stored vertices may be clockwise or open (after a reflection, `scale(xfact=-1)`)")
